@@ -180,7 +180,7 @@ func (b *scriptBO) Reset() {
 	b.idx = 0
 }
 
-var parkPoints = []string{"broadcast.lock", "broadcast.unlocked", "routine.exec"}
+var parkPoints = []string{"broadcast.lock", "broadcast.unlocked", "routine.exec", "routine.timer.retry"}
 
 func run(t *testing.T, cs Case) *ev.Verdict {
 	v := &ev.Verdict{}
@@ -255,7 +255,7 @@ func body(c *sched.Ctl, cs Case, v *ev.Verdict) {
 	sawSuccess, sawFailure, sawRetry, waitOverlap := false, false, false, false
 	unexpectedSpawn := 0
 	waiterWoken := false
-	timerSections := 0
+	recByPtr := map[any]*mRec{}
 
 	returningNow := func() bool { // hm held: some instance entered, cancelled and not yet returned
 		for _, in := range insts {
@@ -344,37 +344,33 @@ func body(c *sched.Ctl, cs Case, v *ev.Verdict) {
 		if cleanup {
 			return
 		}
-		if timerSections > 0 {
-			hm.Lock()
-			timerSections--
-			spawned := false
-			if len(m.unbound) == 0 {
-				for _, tk := range c.Pending() {
-					if tk.Point == "routine.exec" && tk.Label == "" {
-						spawned = true
-					}
-				}
-			}
-			if err := m.TimerSection(spawned); err != nil {
-				fail("C14", "routine:unexpected-timer", "%v", err)
-			}
-			if spawned {
-				sawRetry = true
-			}
-			hm.Unlock()
-		}
 		for _, tk := range c.Pending() {
-			if tk.Point == "routine.exec" && tk.Label == "" {
+			if tk.Label != "" {
+				continue
+			}
+			switch tk.Point {
+			case "routine.exec":
 				hm.Lock()
 				if len(m.unbound) > 0 {
 					tok := m.unbound[0]
 					m.unbound = m.unbound[1:]
+					recByPtr[tk.Obj] = tok.rec
 					hm.Unlock()
 					c.LabelGoid(tk.Goid(), fmt.Sprintf("i%03d", tok.id))
 				} else {
 					unexpectedSpawn++
 					hm.Unlock()
 					c.LabelGoid(tk.Goid(), fmt.Sprintf("x%03d", unexpectedSpawn))
+				}
+			case "routine.timer.retry":
+				// the hook passes the record whose retry timer fired
+				hm.Lock()
+				rec := recByPtr[tk.Obj]
+				hm.Unlock()
+				if rec != nil {
+					c.LabelGoid(tk.Goid(), fmt.Sprintf("tr%03d", rec.gen))
+				} else {
+					c.LabelGoid(tk.Goid(), "tr-unknown")
 				}
 			}
 		}
@@ -430,9 +426,21 @@ func body(c *sched.Ctl, cs Case, v *ev.Verdict) {
 			w.lastOK, w.lastErr = m.returnable(w.rinr)
 			return
 		}
-		if tk.Label == "" {
-			// retry timer callback: resolved after the section ran (see AfterWait)
-			timerSections++
+		if strings.HasPrefix(tk.Label, "tr") {
+			// retry timer callback of a known record
+			var gen int
+			if _, err := fmt.Sscanf(tk.Label, "tr%d", &gen); err == nil {
+				for _, rec := range recByPtr {
+					if rec.gen == gen {
+						before := len(m.toks)
+						m.TimerSection(rec)
+						if len(m.toks) > before {
+							sawRetry = true
+						}
+						break
+					}
+				}
+			}
 		}
 	})
 
